@@ -76,12 +76,14 @@ def units(tier, seed):
         for i in range(0, len(lists), step):
             us.append(('lists', n, i, min(len(lists), i + step)))
     us.append(('maps',))
+    us.append(('rangeexpr',))
+    us.append(('chained',))
     for i in range(4 if tier == 'quick' else 48):
         us.append(('random', i))
     return us
 
 
-def judge(res, case, rec, e, fam):
+def judge(res, case, rec, e, fam, variables=None):
     res.evaluations += 1
     obs = top_outcome(rec)
     if obs[0] == 'inconclusive':
@@ -95,7 +97,7 @@ def judge(res, case, rec, e, fam):
     try:
         for early in (False, True):
             refeval.Evaluator.exists_one_early = early
-            outs, comp = all_outcomes(e, {}, cap=60)
+            outs, comp = all_outcomes(e, dict(variables or {}), cap=60)
             complete = complete and comp
             cands.extend(outs)
             if e[1] not in ('exists_one', 'existsOne') and 'exists' not in repr(e[4]):
@@ -127,12 +129,12 @@ def judge(res, case, rec, e, fam):
                       expected=norm_log(ev0.log)[:100], observed=log[:100])
 
 
-def run_items(res, drv, items, tag):
+def run_items(res, drv, items, tag, variables=None):
     for part in chunks(items, 4000):
-        cases = [exec_case(i, render_min(e)) for i, (e, fam, nt) in enumerate(part)]
+        cases = [exec_case(i, render_min(e), variables) for i, (e, fam, nt) in enumerate(part)]
         out = drv.run(cases, tag)
         for c, r, (e, fam, nt) in zip(cases, out, part):
-            judge(res, c, r, e, fam)
+            judge(res, c, r, e, fam, variables)
             if nt:
                 res.nt(c["src"])
         if part:
@@ -155,6 +157,62 @@ def run_unit(unit, drv, res, seed, tier):
                     items.append((e, fam, n >= 2 or cls != 'pure'))
         run_items(res, drv, items, 'lists')
         res.exhaustive_done['lists-len-%d' % n] = True
+    elif kind == 'rangeexpr':
+        # the range is an operand: evaluated completely, once, in the enclosing scope, before the fold starts -
+        # also when its element expressions mention a name the macro is about to bind
+        ctx = [("x", I(10)), ("y", I(20)), ("l", ('l', [I(1), I(2), I(3)]))]
+        X, Y = ('id', 'x'), ('id', 'y')
+        ranges = [
+            ('list', [('bin', '+', X, lit(1)), ('bin', '+', X, lit(2)), ('bin', '+', X, lit(3))]),
+            ('list', [Y, X, ('bin', '*', X, lit(2))]),
+            ('list', [lit(1), X]),
+            ('list', [('call', 't', [lit(100), X]), ('call', 't', [lit(101), ('bin', '+', X, lit(1))])]),
+            ('list', [lit(1), ('bin', '/', lit(1), lit(0))]),
+            ('list', [lit(1), lit(2), ('bin', '/', X, lit(0))]),
+            ('bin', '+', ('id', 'l'), ('list', [X])),
+            ('macro', 'map', ('id', 'l'), 'x', [('bin', '+', X, lit(1))]),
+            ('map', [(X, lit(1)), (('bin', '+', X, lit(1)), lit(2))]),
+        ]
+        for rng_e in ranges:
+            for kind_m in ('all', 'exists', 'exists_one', 'filter'):
+                for body in (('bin', '>', X, lit(0)), ('bin', '==', X, lit(1)), ('bin', '==', X, lit(11)), ('lit', B(True)), ('call', 't', [X, ('bin', '<', X, lit(12))])):
+                    items.append((('macro', kind_m, rng_e, 'x', [body]), kind_m + ':rangeexpr', True))
+            for body in (X, ('bin', '+', X, Y), ('call', 't', [X, X])):
+                items.append((('macro', 'map', rng_e, 'x', [body]), 'map1:rangeexpr', True))
+                items.append((('macro', 'map', rng_e, 'x', [('bin', '>', X, lit(10)), body]), 'map2:rangeexpr', True))
+            # the same name bound by an enclosing macro
+            items.append((('macro', 'map', ('list', [lit(10), lit(20)]), 'x', [('macro', 'map', ('list', [('bin', '+', X, lit(1)), ('bin', '+', X, lit(2))]), 'x', [X])]), 'map1:rangeexpr-nested', True))
+            items.append((('macro', 'map', ('list', [lit(10), lit(20)]), 'x', [('macro', 'filter', rng_e, 'x', [('bin', '>', X, lit(10))])]), 'filter:rangeexpr-nested', True))
+        run_items(res, drv, items, 'rangeexpr', ctx)
+        res.exhaustive_done['range-expressions'] = True
+    elif kind == 'chained':
+        # a macro applied to the result of another macro (same and different variable names)
+        R0 = ('list', [lit(v) for v in (0, 1, 2, 3, 4)])
+        R1 = ('list', [lit(v) for v in (2, 0, 2)])
+        pa = lambda v: ('bin', '>', ('id', v), lit(1))
+        pb = lambda v: ('bin', '==', ('bin', '%', ('id', v), lit(2)), lit(0))
+        pl = lambda v, k: ('call', 't', [('bin', '+', ('bin', '*', ('id', v), lit(10)), lit(k)), pa(v)])
+        fa = lambda v: ('bin', '*', ('id', v), lit(10))
+        fl = lambda v, k: ('call', 't', [('bin', '+', ('bin', '*', ('id', v), lit(10)), lit(k)), ('bin', '+', ('id', v), lit(1))])
+        fe = lambda v: ('bin', '/', lit(10), ('id', v))
+        for R in (R0, R1):
+            for v1, v2 in (('x', 'x'), ('x', 'y')):
+                for p1 in (pa(v1), pb(v1), pl(v1, 1)):
+                    inner_f = ('macro', 'filter', R, v1, [p1])
+                    for outer in (('macro', 'map', inner_f, v2, [fa(v2)]), ('macro', 'map', inner_f, v2, [fl(v2, 2)]),
+                                  ('macro', 'map', inner_f, v2, [pb(v2), fa(v2)]), ('macro', 'map', inner_f, v2, [pb(v2), fl(v2, 2)]),
+                                  ('macro', 'map', inner_f, v2, [fe(v2)]), ('macro', 'all', inner_f, v2, [pb(v2)]),
+                                  ('macro', 'exists', inner_f, v2, [pl(v2, 3)]), ('macro', 'exists_one', inner_f, v2, [pb(v2)]),
+                                  ('macro', 'filter', inner_f, v2, [pb(v2)])):
+                        items.append((outer, 'chain:filter-then-' + outer[1], True))
+                for f1 in (fa(v1), fl(v1, 1)):
+                    for inner_m in (('macro', 'map', R, v1, [f1]), ('macro', 'map', R, v1, [pa(v1), f1])):
+                        for outer in (('macro', 'map', inner_m, v2, [('bin', '+', ('id', v2), lit(1))]), ('macro', 'filter', inner_m, v2, [pa(v2)]),
+                                      ('macro', 'map', inner_m, v2, [pb(v2), fl(v2, 4)]), ('macro', 'exists', inner_m, v2, [pl(v2, 5)]),
+                                      ('macro', 'all', inner_m, v2, [pa(v2)])):
+                            items.append((outer, 'chain:map-then-' + outer[1], True))
+        run_items(res, drv, items, 'chained')
+        res.exhaustive_done['chained-macros'] = True
     elif kind == 'maps':
         keys = [I(0), I(1), I(2), S('a')]
         for n in range(0, 5):
